@@ -55,6 +55,7 @@ FLOORS = {
         # faithful non-trivial round trips per family: a tree that refuses (nearly) everything must not be reported as held
         "faithful/scalar": 120, "faithful/array-equal": 100, "faithful/array-ragged": 100, "faithful/array-empty": 40, "faithful/dict": 15,
         "faithful/flags": 150, "faithful/nested": 8, "faithful/str": 25,
+        "faithful/layout-fortran": 8, "faithful/layout-transposed-view": 8, "faithful/layout-strided-view": 15, "faithful/layout-reversed-view": 15,
     },
     "thorough": {
         "compare.unit": 20000, "compare.full": 600, "compare.flags": 2000, "attr.side-channel": 10, "write.rejected": 3000,
@@ -64,6 +65,7 @@ FLOORS = {
         "hook:Database.writeToDB": 600, "hook:Database.load": 400,
         "faithful/scalar": 1800, "faithful/array-equal": 1500, "faithful/array-ragged": 1500, "faithful/array-empty": 600, "faithful/dict": 200,
         "faithful/flags": 2000, "faithful/nested": 200, "faithful/str": 400,
+        "faithful/layout-fortran": 100, "faithful/layout-transposed-view": 100, "faithful/layout-strided-view": 200, "faithful/layout-reversed-view": 200,
     },
 }
 
@@ -239,7 +241,26 @@ def rand_shape(rng, ndim, zero_ok=False):
     return tuple(rng.choice([0, 1, 2, 3]) if zero_ok and rng.random() < 0.3 else rng.randint(1, 4) for _ in range(ndim))
 
 
-def mk_array(rng, dt, shape, container):
+def relayout(rng, a):
+    """The same values in a memory layout that is not C-contiguous (what slicing, transposing and Fortran-order libraries
+    hand to a parameter): a writer that walks memory order instead of index order stores them permuted."""
+    import numpy as np
+
+    how = rng.choice(["fortran", "transposed-view", "strided-view", "reversed-view"] if a.ndim >= 2 else ["strided-view", "reversed-view"])
+    if how == "fortran":
+        b = np.asfortranarray(a)
+    elif how == "transposed-view":
+        b = np.ascontiguousarray(a.T).T
+    elif how == "strided-view":
+        big = np.repeat(a, 2, axis=a.ndim - 1)
+        b = big[..., ::2]
+    else:
+        b = np.ascontiguousarray(a[::-1])[::-1]
+    assert b.shape == a.shape and b.dtype == a.dtype and (b == a).all() or a.dtype.kind == "f"
+    return b, how
+
+
+def mk_array(rng, dt, shape, container, layouts=None):
     import numpy as np
 
     size = 1
@@ -248,6 +269,10 @@ def mk_array(rng, dt, shape, container):
     vals = [rand_value(rng, dt) for _ in range(size)]
     a = np.array(vals, dtype=np_type(dt)).reshape(shape) if vals else np.zeros(shape, dtype=np_type(dt) if dt != "str" else "U1")
     if container == "ndarray":
+        if a.size > 1 and rng.random() < 0.4:
+            a, how = relayout(rng, a)
+            if layouts is not None:
+                layouts.append(how)
         return a
     if container == "tuple":
         return tuple(a.tolist())
@@ -314,7 +339,7 @@ def gen_column(rng, family, sub, pattern, n=None):
         col = []
         for s in shapes:
             c = container if container != "mixed" else rng.choice(["ndarray", "list", "tuple"])
-            col.append(mk_array(rng, sub, s, c))
+            col.append(mk_array(rng, sub, s, c, meta.setdefault("layouts", [])))
         meta["shapes"] = [list(s) for s in shapes]
         if sub in FLOAT_DT and rng.random() < 0.2:
             import numpy as np
@@ -766,6 +791,8 @@ def judge(rec, path, col, meta, outcome, witness):
     if not D:
         if any(x is not None for x in col):
             rec.hit("faithful/" + meta["family"])
+            for how in sorted(set(meta.get("layouts") or [])):
+                rec.hit("faithful/layout-" + how)
         return "same"
     top = D[0]
     if top[0] in FORM_ONLY and not meta["judge_form"]:
